@@ -112,6 +112,20 @@ CHECKS["C08"] = dict(engine="E1", cat="model_checking", design="4/C08",
                      note="document depth/width bounded by the layered grammar; for type faults the library's specific "
                           "sidecar type codes are accepted besides SIDECAR_INVALID")
 
+CHECKS["C06"] = dict(engine="E1+E2", cat="model_checking", design="4/C06",
+                     technique="exhaustive enumeration of sidecars x full cross-product tables against a reference assembly; "
+                               "explicit-state histories of assembly calls on one object",
+                     text="Every sidecar from the column-kind menu (plain categorical / value / ignored / non-object entries, "
+                          "templates with a reference at each of 8-10 structural positions or two references, targets a "
+                          "categorical column, a value column or HED; column names cover every character class) is applied to "
+                          "a table whose rows are the full cross product of the per-column cell alphabets, in several column "
+                          "and row orders; every assembled row must equal the reference assembly as a top-level multiset and "
+                          "pass an independent delimiter scanner; histories of <= 2-3 calls of assemble/series_a/dataframe_a/"
+                          "validate give the same answer and leave table text and sidecar dict unchanged; SpreadsheetInput "
+                          "with tag columns and prefix dictionary likewise.",
+                     note="<= 4 sidecar columns; cell alphabets finite; dtype-only drift of the input frame is observed, not "
+                          "judged")
+
 PENDING_REASON = "check not built yet in this revision (planned in DESIGN.md section 4); not claimed until it is"
 
 
